@@ -99,6 +99,54 @@ class Check(PropertyCheck):
 
     def setup(self, tier):
         self.parallel = (tier == "thorough")
+        self.known_selftest()
+
+    def known_selftest(self):
+        """every classifier: one positive witness, the same input with a different failure, a neighbouring input with the
+        same kind of failure (known_audit.txt)"""
+        self._ensure()
+        def base(**kw):
+            c = {"kind": "dns", "mode": "dns", "id": 42, "query": 0, "op": 0, "aa": 0, "tc": 0, "rd": 1, "ra": 1, "z": 0, "rcode": 0,
+                 "qs": [[s2h("example.com"), 16, 1]], "an": [], "ns": [], "ar": []}
+            c.update(kw); return c
+        def rr(t, data): return [[s2h("example.com"), t, 1, 60, hx(data)]]
+        def run(case):
+            obs = self._impl(case); return obs, self.oracle(case, obs)
+        def forged(case, obs, mut):
+            o = json.loads(json.dumps(obs)); mut(o); return o, self.oracle(case, o)
+        def setdata(h):
+            def m(o): o["back"]["rr"][0][0][4] = h
+            return m
+        checks = []
+        # F-C50a
+        c = base(z=1); obs, fs = run(c); checks.append(("a+", c, obs, fs, {"F-C50a"}))
+        o2, fs2 = forged(c, obs, lambda o: o["back"].__setitem__("z", 3)); checks.append(("a: other Z value", c, o2, fs2, {None}))
+        o2, fs2 = forged(c, obs, lambda o: o["back"]["hdr"].__setitem__(0, 7)); checks.append(("a: id differs too", c, o2, fs2, {"F-C50a", None}))
+        c0 = base(); obs0, _ = run(c0)
+        o2, fs2 = forged(c0, obs0, lambda o: o["back"].__setitem__("z", 1)); checks.append(("a: Z appears from 0", c0, o2, fs2, {None}))
+        # F-C50b
+        c = base(an=rr(16, b"\xff")); obs, fs = run(c); checks.append(("b+ TXT", c, obs, fs, {"F-C50b"}))
+        o2, fs2 = forged(c, obs, setdata("00")); checks.append(("b: other data", c, o2, fs2, {None}))
+        c = base(an=rr(2, bytes.fromhex("2282825cff"))); obs, fs = run(c); checks.append(("b+ NS", c, obs, fs, {"F-C50b"}))
+        c = base(an=rr(1, b"\x01")); obs, _ = run(c)
+        o2, fs2 = forged(c, obs, setdata("02")); checks.append(("b: undecodable A record", c, o2, fs2, {None}))
+        c = base(an=rr(16, b"hello")); obs, _ = run(c)
+        o2, fs2 = forged(c, obs, setdata(b"0x68656c6c6f (invalid TXT data)".hex())); checks.append(("b: decodable TXT", c, o2, fs2, {None}))
+        # F-C50c
+        c = base(an=rr(16, b"a\xc2\x85b")); obs, fs = run(c); checks.append(("c+", c, obs, fs, {"F-C50c"}))
+        o2, fs2 = forged(c, obs, setdata("6162")); checks.append(("c: other data", c, o2, fs2, {None}))
+        c = base(an=rr(16, "a\u2028b".encode())); obs, _ = run(c)
+        o2, fs2 = forged(c, obs, setdata("612e62")); checks.append(("c: U+2028 instead of U+0085", c, o2, fs2, {None}))
+        # F-C50d
+        txt = ("\x01 b\x01 \x01bba\x01\x01\x01b\x01\x01\x01\x01\x01\x01a\x01b\x01\x01  \x01\x01\x01 \x01b" + "\x01ab " * 20).encode()
+        c = base(an=rr(16, txt)); obs, fs = run(c); checks.append(("d+", c, obs, fs, {"F-C50d"}))
+        o2, fs2 = forged(c, obs, setdata(txt[:-1].hex())); checks.append(("d: other data", c, o2, fs2, {None}))
+        c = base(an=rr(16, b"short text")); obs, _ = run(c)
+        o2, fs2 = forged(c, obs, setdata(b"short  text".hex())); checks.append(("d: YAML-faithful text", c, o2, fs2, {None}))
+        for label, case, obs, fs, want in checks:
+            got = {self.known(case, obs, f) for f in fs}
+            if not fs or got != want:
+                raise AssertionError(f"known_selftest {label}: failures={fs[:2]} classified {got}, expected {want}")
 
     # ---------------------------------------------------------------- translator
     def translate(self):
@@ -199,12 +247,29 @@ class Check(PropertyCheck):
             try: return domain_names.pack(rng.pick(self.NAMES))
             except Exception: return b"\x01a\x00"
         if t == 16: return rng.pick(self.TXTS)
-        if t == 65: return rng.pick([b"\x00\x01\x00", b"\x00\x01\x01a\x00\x00\x01\x00\x03\x02h2", b"\x00\x00\x03foo\x00", b"\x00\x01\x00\x00\x04\x00\x04\x01\x02\x03\x04"])
+        if t == 65: return self._https(rng)
         return rng.bytes_(rng.randint(0, 12))
+
+    def _https(self, rng):
+        """structured HTTPS/SVCB rdata (RFC 9460): SvcPriority over the whole 16-bit range, TargetName, SvcParams in and out of
+        order, known and unknown keys, empty values, occasionally a repeated key or a truncated tail"""
+        pri = rng.pick([0, 1, 2, 0x7fff, 0x8000, 0x8001, 0xffff, rng.getrandbits(16)])
+        name = rng.pick([b"\x00", b"\x01a\x00", b"\x03foo\x07example\x00", b"\x03svc\x07example\x03net\x00", b"\x02A-\x00"])
+        vals = {0: [b"\x00\x01", b"\x00\x01\x00\x03"], 1: [b"\x02h2", b"\x02h2\x02h3", b"\x08http/1.1"], 2: [b""], 3: [b"\x01\xbb", b"\x20\xfb"],
+                4: [b"\x01\x02\x03\x04", b"\xc0\x00\x02\x01\xc0\x00\x02\x02"], 5: [b"\x00\x45\xfe\x0d\x00", rng.bytes_(rng.randint(1, 70))],
+                6: [bytes(15) + b"\x01"], 7: [b"/dns-query{?dns}"], 0x8000: [b"", b"x'\"\\\n"], 65535: [b"\xff"]}
+        keys = rng.sample(sorted(vals), rng.randint(0, 5))
+        if rng.chance(0.7): keys.sort()
+        if keys and rng.chance(0.08): keys.append(rng.pick(keys))          # a repeated key
+        out = struct.pack("!H", pri) + name
+        for k in keys:
+            v = rng.pick(vals[k]); out += struct.pack("!HH", k, len(v)) + v
+        if rng.chance(0.05): out = out[:-1] if len(out) > 3 else out + b"\x00"
+        return out
 
     def gen_dns(self, rng):
         def rr():
-            t = rng.pick([1, 28, 2, 5, 12, 16, 16, 65, 99, 65535, 0, 10, 13])
+            t = rng.pick([1, 28, 2, 5, 12, 16, 16, 65, 65, 99, 65535, 0, 10, 13])
             return [s2h(rng.pick(self.NAMES)), t, rng.pick([1, 3, 255, 0, 65535, 4, 254]), rng.pick([0, 60, 2 ** 32 - 1, 2 ** 31]), hx(self._rdata(rng, t))]
         return {"kind": "dns", "mode": rng.pick(["dns", "dns", "udp", "tcp", "http"]), "id": rng.pick([0, 42, 65535, rng.getrandbits(16)]),
                 "query": rng.randint(0, 1), "op": rng.pick([0, 0, 1, 2, 4, 5, 15, 7]), "aa": rng.randint(0, 1), "tc": int(rng.chance(.3)),
@@ -513,24 +578,50 @@ class Check(PropertyCheck):
                 if ro == rb: continue
                 fid = None
                 if ro[:4] == rb[:4]:
-                    data = bytes.fromhex(ro[4]); t = ro[1]
-                    if t in LOOSE and self._undecodable(t, data): fid = "F-C50b"
-                    elif t == 16 and "\x85" in data.decode("utf-8"): fid = "F-C50c"
-                    elif self._yaml_lossy(ro): fid = "F-C50d"
+                    fid = self.classify_data_diff(ro, rb)
                 out.append((fid, f"record {ro} -> {rb}"))
         return out
 
+    # --- classifiers of the recorded findings: each returns its id only for (input in the recorded class) AND
+    # --- (observed re-encoded data == the data the recorded mechanism predicts); anything else stays unexcused.
     @staticmethod
-    def _yaml_lossy(ro):
-        """the YAML library alone (yaml_loads o yaml_dumps, no DNS code) does not reproduce this record's JSON data when
-        it is dumped at the same nesting as in the DNS view"""
+    def classify_data_diff(ro, rb):
+        t, data, back = ro[1], bytes.fromhex(ro[4]), bytes.fromhex(rb[4])
+        # F-C50b: NS/CNAME/PTR/TXT rdata the type-specific decoder rejects comes back as the bytes of the marker string
+        if t in LOOSE and Check._undecodable(t, data):
+            marker = f"0x{data.hex()} (invalid {NAMED[t]} data)".encode("ascii")
+            if t == 16: expect = marker
+            else: expect = (bytes([len(marker)]) + marker + b"\x00") if len(marker) < 64 else None   # one label (no dot in the marker)
+            return "F-C50b" if expect is not None and back == expect else None
+        if Check._undecodable(t, data) or t not in NAMED:
+            return None
+        # F-C50c / F-C50d: the YAML text pipeline alone (no DNS code) already alters this record's JSON data, and the
+        # re-encoded data is exactly what that altered JSON encodes to
+        pred_c = Check._yaml_predict(ro, escape=True)
+        pred_d = Check._yaml_predict(ro, escape=False)
+        has_nel = t == 16 and "\x85" in data.decode("utf-8")
+        if has_nel:
+            return "F-C50c" if pred_c is not None and pred_c != data and back == pred_c else None
+        if pred_d is not None and pred_d != data and back == pred_d and pred_c == pred_d:
+            return "F-C50d"
+        return None
+
+    @staticmethod
+    def _yaml_predict(ro, escape):
+        """rdata that results when ONLY the YAML library (and, with escape, prettify_message's final escaping) handles
+        this record's JSON form at the nesting it has in the DNS view; None if that pipeline raises"""
         from mitmproxy import dns
         from mitmproxy.contentviews._utils import yaml_dumps, yaml_loads
+        from mitmproxy.utils import strutils
         j = dns.ResourceRecord(ro[0], ro[1], ro[2], ro[3], bytes.fromhex(ro[4])).to_json()
         try:
-            return yaml_loads(yaml_dumps({"answers": [j]}))["answers"][0]["data"] != j["data"]
+            text = yaml_dumps({"answers": [j]})
+            if escape: text = strutils.escape_control_characters(text)
+            d = yaml_loads(text)["answers"][0]["data"]
+            if ro[1] == 16: return d.encode("utf-8") if isinstance(d, str) else None
+            return dns.ResourceRecord.from_json({**j, "data": d}).data
         except Exception:
-            return True
+            return None
 
     @staticmethod
     def _undecodable(t, data):
